@@ -115,6 +115,38 @@ Proof.
     + symmetry. apply (D_mono (i_len s)); auto.
     + unfold ItInv, Snap. rewrite Eok. repeat split; auto. symmetry. apply Nat.ltb_ge. lia.
 Qed.
+
+(* ---- histories: a pull iterator consumed over time, with arbitrary other calls in between ----
+   cs lists the oracle call numbers in force at each pull: whatever they are (whatever happened in
+   between: other iterators, At calls, other goroutines), the pulls deliver the consecutive positions
+   of D from the iterator's own index; after the end every pull reports the end again. *)
+Fixpoint it_pulls (cs : list nat) (s : it) : list (option nat) :=
+  match cs with
+  | [] => []
+  | c :: r => let '(x, s') := it_next c s in x :: it_pulls r s'
+  end.
+
+Fixpoint expect (n idx : nat) : list (option nat) :=
+  match n with
+  | O => []
+  | S n' => D idx :: expect n' (match D idx with Some _ => S idx | None => idx end)
+  end.
+
+Theorem it_pulls_spec : forall cs s, ItInv s -> it_pulls cs s = expect (length cs) (i_idx s).
+Proof.
+  induction cs as [|c r IH]; intros s Hs; cbn [it_pulls expect length]; auto.
+  pose proof (it_next_spec c s Hs) as H. destruct (it_next c s) as [x s'].
+  destruct H as (Hx & Hinv & Hidx). subst x. f_equal.
+  rewrite (IH s' Hinv), Hidx. reflexivity.
+Qed.
+
+(* two iterators created at the same index deliver the same answers whatever their histories *)
+Corollary it_history_independent cs1 cs2 c1 c2 idx : length cs1 = length cs2 ->
+  it_pulls cs1 (it_new c1 idx) = it_pulls cs2 (it_new c2 idx).
+Proof.
+  intros Hl. destruct (it_new_inv c1 idx) as (I1 & E1). destruct (it_new_inv c2 idx) as (I2 & E2).
+  rewrite !it_pulls_spec by assumption. rewrite Hl, E1, E2. reflexivity.
+Qed.
 End Clients.
 Print Assumptions scan_spec.
 Print Assumptions it_next_spec.
